@@ -94,8 +94,10 @@ def verdicts (E : BlockCipher) (op : String) (args : List String) (res : Option 
          let consistent := up.devEUI == q.devEUI && (up.joinEUI.all (· == BitVec.ofNat 64 joinEUI)) && (up.netID.all (· == BitVec.ofNat 24 netID))
          let wellFormed := consistent && 0 ≤ nonce && nonce < 16777216 && 0 ≤ q.rxDelay && q.rxDelay ≤ 15 && q.rx2dr.toNat ≤ 15 && q.rx1off.toNat ≤ 7 &&
            validCFList q.cfList && validKEK c.nsKEK && validKEK c.asKEK && nwkKey.length == 16 && appKey.length == 16
-         if !wellFormed then [] else
+         -- a join-request with a wrong MIC yields MICFailed, whatever else is wrong with what the server would have answered
+         -- (JoinNonce overflow, RxDelay, CFList, KEK): the MIC is checked on the parsed request before anything is built
          if !q.rejoin && !up.micOK then (if result == "MICFailed" then [] else [("C16", "wrong-mic-not-reported-as-micfailed")]) else
+         if !wellFormed then [] else
          if q.rejoin && !q.optNeg then [] else      -- a rejoin-request only exists in 1.1: OptNeg is set
          if result != "Success" || code != "200" then [("C16", "valid-request-not-answered-with-success")] else
          (match unhx phyT, parseKey k1, parseKey k2, parseKey k3, parseKey k4, parseKey k5 with
